@@ -22,7 +22,7 @@ pub fn property() -> Property {
         parts: vec![
             Part {
                 name: "static",
-                quick: 30_000,
+                quick: 90_000,
                 thorough: 3_000_000,
                 single_shard: false, supplementary: false,
                 run: |cfg| run_part(cfg, gen::raw_pos(100), |r| PosCase { fen: gen::position(r, ClockDomain::EngineQuiet).fen() }, check_static),
@@ -38,7 +38,7 @@ pub fn property() -> Property {
             },
             Part {
                 name: "terminal",
-                quick: 6_000,
+                quick: 20_000,
                 thorough: 300_000,
                 single_shard: false, supplementary: false,
                 run: |cfg| run_part(cfg, (gen::raw_pos_endgames(), any::<u32>()), |(r, f)| TerminalCase { fen: gen::position(r, ClockDomain::EngineQuiet).fen(), fullmove: 1 + f % 2000 }, check_terminal),
